@@ -149,6 +149,7 @@ def run(ctx, rep):
     from props import C16 as _c16
     _c16.expressions_are_typed_before_they_are_stored(F, rep, rule="C03.typed-tree")
     prefix_words_are_reserved(ctx, F, rep)
+    loop_step_is_type_checked(F, rep)
 
 
 def every_argument_is_checked(F, rep, rule):
@@ -446,3 +447,41 @@ def prefix_words_are_reserved(ctx, F, rep, rule="C03.unknown-name"):
         rep.ob(rule, "the prefix word `%s` cannot be read as a variable name" % w, "ok" if ok else "violated",
                "" if ok else "`%s` is not in KEYWORDS: `print %s` at the end of a line compiles to `load \"%s\"` (no declared-name lookup), which fails when it runs" % (w, w, w),
                "compiler/src/grammar.pest", key="%s|prefix-word|%s" % (rule, w))
+
+
+
+def loop_step_is_type_checked(F, rep, rule="C03.loop-step"):
+    """`from a to b step s`: at run time the counter becomes `a + s` and is compared with the bound.  `a + s` alone is not enough of a check
+    (`1 + "x"` is string concatenation): Parser::number_loop has to ask whether the *result of the addition* can be compared (`<=` yields
+    bool).  Structural part: some get_output_type call takes, as its receiver, the result of another get_output_type call (the addition),
+    and every successful return lies behind the Some edge of a test of its result."""
+    nl = None
+    for g in F.crates["compiler"].fns:
+        if g.path.endswith("::number_loop") and "impl compiler::parser::Parser" in g.path and g.kind != "Closure":
+            nl = g
+    if nl is None:
+        raise AnchorMissing("Parser::number_loop")
+    GOT = "compiler::ast::r#type::TypeLayout::get_output_type"
+    gots = nl.calls_to(GOT)
+    rep.floor(rule + " operator typings in number_loop", len(gots), 2)
+    thr = rules.TRANSPARENT | {rules.TRY_BRANCH, "core::option::Option::unwrap", "core::option::Option::unwrap_or_else", "core::option::Option::unwrap_or"}
+    chained = []
+    for b in gots:
+        l = op_local(b.args[0]) if b.args else None
+        oc = rules.origin_calls(nl, l, transparent=thr) if l is not None else []
+        if any(a in gots and a is not b for a in oc):
+            chained.append(b)
+    oks = rules.ok_return_blocks(nl)
+    good = []
+    for b in chained:
+        removed = set()
+        for bb, base, targets, other in rules.discr_switches(nl, nl.derived([b.dst["l"]])):
+            if "1" in targets:                       # Option::Some
+                removed.add((bb, targets["1"]))
+        if removed and not (set(oks) & nl.reachable(0, removed_edges=removed)):
+            good.append(b)
+    ok = bool(good)
+    rep.ob(rule, "the type of `start + step` is itself checked to be comparable before the loop is accepted", "ok" if ok else "violated",
+           "" if ok else ("%d of %d operator typings take the result of another as receiver, none of them guards the successful returns: "
+                          "`from 0 to 6 step \"2\"` compiles (the counter becomes the str \"02\") and fails when it is compared" % (len(chained), len(gots))),
+           nl.span, fn=nl.path, key=rule)
